@@ -12,6 +12,16 @@ pub enum Tr { Affine, Scale, ScaleBy(f64), AffineBy(f64), Negate }
 #[derive(Clone, Copy, Debug, PartialEq)]
 pub enum Rel { Same, Scaled, Negated, HundredMinus }
 /// `from`/`until`: obligations are stated only at steps from <= t < until (used to separate CTI's partial window)
+thread_local! { /// > 0: the stream cycles through that many symbolic values (ties a whole period apart at any window length)
+    static PERIOD: std::cell::Cell<usize> = const { std::cell::Cell::new(0) }; }
+fn stream_value<T: Dom>(t: usize, positive: bool) -> T {
+    let p = PERIOD.with(|p| p.get());
+    let x = if p > 0 { T::input(&format!("{}c{}", if positive { "pos" } else { "" }, t % p)) } else { T::input(&format!("x{t}")) };
+    if positive { T::assume(lt(T::zero(), x)); }
+    x
+}
+fn relate_cyc<T: Dom>(vk: VK, k: usize, tr: Tr, rel: Rel, from: usize, period: usize) { PERIOD.with(|p| p.set(period)); let r = std::panic::catch_unwind(std::panic::AssertUnwindSafe(|| relate::<T>(vk, k, tr, rel, from, usize::MAX))); PERIOD.with(|p| p.set(0)); if let Err(e) = r { std::panic::resume_unwind(e); } }
+fn minmax_swap_cyc<T: Dom>(n: usize, k: usize, period: usize) { PERIOD.with(|p| p.set(period)); let r = std::panic::catch_unwind(std::panic::AssertUnwindSafe(|| minmax_swap::<T>(n, k))); PERIOD.with(|p| p.set(0)); if let Err(e) = r { std::panic::resume_unwind(e); } }
 fn relate<T: Dom>(vk: VK, k: usize, tr: Tr, rel: Rel, from: usize, until: usize) {
     let (mut v, mut u) = (build::<T>(&vk, echo()), build::<T>(&vk, echo()));
     let a = match tr { Tr::Affine | Tr::Scale => { let a = T::input("posa"); T::assume(lt(T::zero(), a)); a } Tr::ScaleBy(c) | Tr::AffineBy(c) => T::c(c), Tr::Negate => -T::one() };
@@ -20,8 +30,7 @@ fn relate<T: Dom>(vk: VK, k: usize, tr: Tr, rel: Rel, from: usize, until: usize)
     let n = match &vk { VK::Rsi(n) => *n, _ => 1 };
     let mut h: Vec<T> = vec![];
     for t in 0..k {
-        let x = T::input(&format!("x{t}"));
-        if positive { T::assume(lt(T::zero(), x)); }
+        let x = stream_value::<T>(t, positive);
         h.push(x);
         v.update(x);
         u.update(if tr == Tr::Negate { -x } else { a * x + b });
@@ -52,7 +61,7 @@ fn relate<T: Dom>(vk: VK, k: usize, tr: Tr, rel: Rel, from: usize, until: usize)
 fn minmax_swap<T: Dom>(n: usize, k: usize) {
     let (mut mn, mut mx, mut nmn, mut nmx) = (build::<T>(&VK::Min(n), echo()), build::<T>(&VK::Max(n), echo()), build::<T>(&VK::Min(n), echo()), build::<T>(&VK::Max(n), echo()));
     for t in 0..k {
-        let x = T::input(&format!("x{t}"));
+        let x = stream_value::<T>(t, false);
         mn.update(x); mx.update(x); nmn.update(-x); nmx.update(-x);
         match (mn.last(), mx.last(), nmn.last(), nmx.last()) { (Some(a), Some(b), Some(c), Some(d)) => T::oblige(&format!("Min/Max(N={n}) t={t}: Min(-x) == -Max(x) and Max(-x) == -Min(x)"), Cond::And(vec![eq(c, -b), eq(d, -a)])), _ => T::oblige(&format!("Min/Max(N={n}) t={t}: have values"), Cond::Bool(false)) }
     }
@@ -108,12 +117,28 @@ pub fn units(tier: Tier, _seed: u64) -> Vec<Unit> {
         u.push(unit!(format!("C12/Negate-swap/Min,Max({n})/k={k}/sample-path"), minmax_swap(n, k)));
     }
     for x in u.iter_mut().skip(first_big) { x.concolic = Some(5); x.budget_s = 30.0; x.max_decisions = 60000; }
+    // streams cycling through two or three symbolic values, all comparison outcomes: the extreme is evicted and re-found, and the
+    // largest and smallest values are duplicated, at window lengths around every multiple of 16 (block-wise scans, sort-based counts)
+    let first_cyc = u.len();
+    for &n in &(if q { vec![15usize, 16, 17, 33, 49, 64] } else { vec![15usize, 16, 17, 31, 32, 33, 34, 47, 48, 49, 63, 64, 65, 128, 129] }) {
+        for period in [2usize, 3] {
+            let k = n + 2 * period + 2;
+            u.push(unit!(format!("C12/Negate-swap/Min,Max({n})/k={k}/period-{period}"), minmax_swap_cyc(n, k, period)));
+            for vk in [VK::Min(n), VK::Max(n)] { u.push(unit!(format!("C12/Scale-Scaled/{}/k={k}/period-{period}", vk.name()), relate_cyc(vk.clone(), k, Tr::Scale, Rel::Scaled, 0usize, period))); }
+            if n <= 49 {
+                u.push(unit!(format!("C12/Negate-Negated/NET({n})/k={k}/period-{period}"), relate_cyc(VK::NET(n), k, Tr::Negate, Rel::Negated, n - 1, period)));
+                u.push(unit!(format!("C12/Negate-Negated/HLNormalizer({n})/k={k}/period-{period}"), relate_cyc(VK::HLNormalizer(n), k, Tr::Negate, Rel::Negated, n - 1, period)));
+                u.push(unit!(format!("C12/Negate-HundredMinus/Rsi({n})/k={k}/period-{period}"), relate_cyc(VK::Rsi(n), k, Tr::Negate, Rel::HundredMinus, n, period)));
+            }
+        }
+    }
+    for x in u.iter_mut().skip(first_cyc) { x.budget_s = 30.0; x.path_cap = 200; x.max_decisions = 60000; }
     u
 }
 pub fn meta() -> Meta {
     Meta {
         functions: vec!["HLNormalizer", "Vsct", "Vst", "CorrelationTrendIndicator", "NoiseEliminationTechnology", "EhlersFisherTransform", "Rsi", "MyRSI", "LaguerreRSI", "Roc", "CenterOfGravity", "BinaryEntropy", "TrendFlex", "ReFlex", "LnReturn", "Drawdown", "Min", "Max", "Sma", "Ema", "Alma", "Cumulative", "WelfordOnline", "SuperSmoother", "RoofingFilter", "CyberCycle", "LaguerreFilter — each ::{new,update,last}, two instances driven on x and on the transformed stream"],
-        bounds: "N = 2 (quick) / {2,3,4} (thorough), raised to the view's minimum; k = N+3; the scale a>0 and the offset b are solver variables (verdict for all scales and offsets); all comparison outcomes of both instances; in addition N = 8 (quick) / {6,8,12,16} along a sampled comparison path",
+        bounds: "N = 2 (quick) / {2,3,4} (thorough), raised to the view's minimum; Min/Max (negation swap, scaling), NET, HLNormalizer and Rsi (negation) also on streams cycling through two or three symbolic values, all comparison outcomes, at N in {15,16,17,33,49,64} (quick) / {15..17,31..34,47..49,63..65,128,129} (NET/HLNormalizer/Rsi up to 49); k = N+3; the scale a>0 and the offset b are solver variables (verdict for all scales and offsets); all comparison outcomes of both instances; in addition N = 8 (quick) / {6,8,12,16} along a sampled comparison path",
         outside: vec!["the f64 clause 'bit-exact for a a power of two' (needs bit-precise floating point; see kani/ for Min/Max)", "N > 4, longer streams"],
         assumptions: vec!["sqrt is the exact real square root (axiomatised), ln/tanh uninterpreted with congruence and monotonicity"],
     }
